@@ -204,15 +204,48 @@ def scope_pushers(prog):
     for f in prog.hand_fns():
         if f.is_closure or f.from_expansion or not f.module.startswith(sm) or not f.locals:
             continue
-        if f.locals[0] != SCOPESTACK:
-            continue
         ptys = f.locals[1:f.arg_count + 1]
+        # it returns the extended chain, or lends it to a callback
+        # (`with_new_scope(&self, f: impl FnOnce(&mut ScopeStack) -> T) -> T`)
+        if f.locals[0] != SCOPESTACK and callback_param(f) is None:
+            continue
         if not any(t.replace("&mut ", "&") == "&" + SCOPESTACK for t in ptys):
             continue
         # it allocates one new shared cell (a Vec slot `Arc<Mutex<Scope>>` or a
         # list node `Arc<ScopeNode>`)
         if any((c.declared or "") == "std::sync::Arc::<T>::new" for c in f.calls()):
             out.append(f)
+    return out
+
+
+_CALLBACK_RE = _re_mod.compile(r"Fn(Once|Mut)?\(&mut (\w+::)*ScopeStack\)")
+
+
+def callback_param(f):
+    """Index of a parameter of f that is a callback receiving `&mut ScopeStack`
+    (the chain is lent to the callback instead of being returned), or None."""
+    for i in range(1, f.arg_count + 1):
+        if _CALLBACK_RE.search(f.locals[i]):
+            return i
+    return None
+
+
+def chain_cloners(prog):
+    """Scope-module functions that hand back a shallow copy of the chain they
+    are given (`capture(&self) -> ScopeStack { ScopeStack(self.0.clone()) }`):
+    no new cell, no push, nothing removed — equivalent to `clone()`."""
+    sm = scope_module(prog)
+    out = set()
+    for f in prog.hand_fns():
+        if f.is_closure or f.from_expansion or not f.module.startswith(sm) or not f.locals:
+            continue
+        if f.locals[0] != SCOPESTACK or f.arg_count != 1 or f.locals[1].replace("&mut ", "&") != "&" + SCOPESTACK:
+            continue
+        names = [(c.res or c.declared or "").split("::")[-1] for c in f.calls()]
+        if any(n in ("new", "push", "pop", "truncate", "remove", "insert", "drain", "clear", "split_off") for n in names):
+            continue
+        if any((c.declared or "") == "std::clone::Clone::clone" for c in f.calls()) and not f.natural_loops():
+            out.add(f.path)
     return out
 
 
